@@ -190,7 +190,8 @@ func genAuthPlan(r *rand.Rand, tier, focus string) *vfPlan {
 		if chance(r, 0.4) {
 			// an automation certificate exists from the start and is a frequent credential
 			add(vfStep{Op: "mintsession", Sess: "adm", User: pick(r, []string{"root", "autoadmin"}), N: int64(AuthTypeU2F | AuthTypePassword)})
-			add(vfStep{Op: "rolecert", Sess: "adm", A: pick(r, []string{"auto1", "auto2"}), L: []string{pick(r, vfNetChoices)}, B: pick(r, []string{"user_p256_3", "user_rsa2048_4"})})
+			add(vfStep{Op: "rolecert", Sess: "adm", A: pick(r, []string{"auto1", "auto2"}), L: []string{pick(r, vfNetChoices)}, B: pick(r, []string{"user_p256_3", "user_rsa2048_4"}),
+				D: pick(r, []string{"", "", "1h", "12h", "24h"})}) // the short-lived ones run out during the run
 			ipcertShare = 6
 			if !containsStr(p.Cfg.CertBackends, "IPCertificate") && chance(r, 0.7) {
 				p.Cfg.CertBackends = append(p.Cfg.CertBackends, "IPCertificate")
@@ -476,6 +477,10 @@ func genAuthPlan(r *rand.Rand, tier, focus string) *vfPlan {
 					st.Target = "127.0.0.1"
 					st.L = append(st.L, "fwd:"+pick(r, vfPeerChoices))
 				}
+				if chance(r, 0.25) {
+					// the request travels on a connection opened long ago: the handshake saw the certificate then
+					st.L = append(st.L, "connage:"+pick(r, []string{"10m", "30h", "1100h", "2300h", "7300h"}))
+				}
 			}
 			add(st)
 		case x < 78 && p.Cfg.CliTokenLife != "":
@@ -565,6 +570,16 @@ func genAuthPlan(r *rand.Rand, tier, focus string) *vfPlan {
 		}
 	}
 	add(vfStep{Op: "heal"})
+	if focus == "C01" && ipcertShare == 6 && chance(r, 0.35) {
+		// the 45 days of the automation certificate run out while its holder keeps a connection open
+		add(vfStep{Op: "quiesce_daemon"})
+		add(vfStep{Op: "advance", D: pick(r, []string{"1000h", "1081h", "1200h"})})
+		for k := 0; k < 2; k++ {
+			st := vfStep{Op: "certgen", C: "cert:last:ipcert", User: pick(r, []string{"auto1", "auto2"}), Target: pick(r, vfPeerChoices), A: pick(r, []string{"ssh", "x509"}), B: pick(r, vfUserKeyNames),
+				L: []string{"connage:" + pick(r, []string{"1m", "130h", "300h"})}}
+			add(st)
+		}
+	}
 	if focus == "C03" && p.Cfg.AwsRoles && chance(r, 0.3) {
 		// the server runs in a zone with daylight saving time; a cloud-role certificate is requested the day before the
 		// clocks go back (2000-10-29 in New York) - and at other times of the year
